@@ -357,3 +357,88 @@ theorem leak_automaton_exact_counterexample :
   decide
 
 end Cppcheck.LeakStraight
+
+/-!
+Part 3: allocation groups (`Cppcheck.LibGroups`, lib/library.cpp `Library::load`): which deallocator matches which allocator.
+-/
+namespace Cppcheck.LibGroups
+
+/-- every function a block declares is registered with the block's group -/
+theorem loadBlock_registers (st : LibState) (b : Block) :
+    (∀ n ∈ b.allocs, allocGroup (loadBlock st b) n = some (groupFor st b).1) ∧
+    (∀ n ∈ b.deallocNames, deallocGroup (loadBlock st b) n = some (groupFor st b).1) := by
+  constructor <;> intro n hn <;> simp only [loadBlock, allocGroup, deallocGroup] <;> exact lookup_map_append_mem hn
+
+/-- functions the block does not declare keep their group -/
+theorem loadBlock_keeps (st : LibState) (b : Block) :
+    (∀ n, n ∉ b.allocs → allocGroup (loadBlock st b) n = allocGroup st n) ∧
+    (∀ n, n ∉ b.deallocNames → deallocGroup (loadBlock st b) n = deallocGroup st n) := by
+  constructor <;> intro n hn <;> simp only [loadBlock, allocGroup, deallocGroup] <;> exact lookup_map_append_not_mem hn
+
+/-- **a block joins the group of a deallocator it shares** — whichever `<dealloc>` element names it — provided all of its
+    already registered deallocator names are in that one group -/
+theorem groupFor_joins (st : LibState) (b : Block) (d : String) (g : Nat)
+    (hd : d ∈ b.deallocNames) (hg : deallocGroup st d = some g) (hall : knownAllIn st b g = true) :
+    (groupFor st b).1 = g := by
+  unfold groupFor
+  cases hf : firstKnown st.dealloc b.deallocNames with
+  | none =>
+    have := firstKnown_none hf d hd
+    simp [deallocGroup] at hg
+    rw [this] at hg; simp at hg
+  | some g' =>
+    obtain ⟨n, hn, hl⟩ := firstKnown_some hf
+    have := List.all_eq_true.mp hall n hn
+    simp [hl] at this
+    simpa using this
+
+/-- two blocks that share a deallocator name: after both are loaded, every allocator and deallocator of either block is in the
+    first block's group (so each deallocator of one matches each allocator of the other) -/
+theorem shared_dealloc_same_group_partial (st : LibState) (b1 b2 : Block) (d : String)
+    (h1 : d ∈ b1.deallocNames) (h2 : d ∈ b2.deallocNames)
+    (hall : knownAllIn (loadBlock st b1) b2 (groupFor st b1).1 = true) :
+    let st2 := loadBlock (loadBlock st b1) b2
+    (∀ a ∈ b1.allocs ++ b2.allocs, allocGroup st2 a = some (groupFor st b1).1) ∧
+    (∀ n ∈ b1.deallocNames ++ b2.deallocNames, deallocGroup st2 n = some (groupFor st b1).1) := by
+  have hg2 : (groupFor (loadBlock st b1) b2).1 = (groupFor st b1).1 :=
+    groupFor_joins _ b2 d _ h2 ((loadBlock_registers st b1).2 d h1) hall
+  constructor
+  · intro a ha
+    by_cases hb : a ∈ b2.allocs
+    · rw [(loadBlock_registers _ b2).1 a hb, hg2]
+    · have : a ∈ b1.allocs := by
+        rcases List.mem_append.mp ha with h | h
+        · exact h
+        · exact absurd h hb
+      rw [(loadBlock_keeps _ b2).1 a hb]
+      exact (loadBlock_registers st b1).1 a this
+  · intro n hn
+    by_cases hb : n ∈ b2.deallocNames
+    · rw [(loadBlock_registers _ b2).2 n hb, hg2]
+    · have : n ∈ b1.deallocNames := by
+        rcases List.mem_append.mp hn with h | h
+        · exact h
+        · exact absurd h hb
+      rw [(loadBlock_keeps _ b2).2 n hb]
+      exact (loadBlock_registers st b1).2 n this
+
+/-- the hypothesis is satisfiable; and the rule looks at *all* `<dealloc>` elements: a block whose first `<dealloc>` is new and
+    whose second one is `free` joins the group of `free` (the pool.cfg shape of the seeded change) -/
+example :
+    let std : Block := ⟨false, ["malloc", "calloc"], [["free"]]⟩
+    let pool : Block := ⟨false, ["pool_strdup"], [["pool_release"], ["free"]]⟩
+    knownAllIn (loadBlock empty std) pool (groupFor empty std).1 = true ∧
+    allocGroup (load empty [std, pool]) "pool_strdup" = some 2 ∧ allocGroup (load empty [std, pool]) "malloc" = some 2 ∧
+    deallocGroup (load empty [std, pool]) "free" = some 2 ∧ deallocGroup (load empty [std, pool]) "pool_release" = some 2 := by
+  decide
+
+/-- without the hypothesis the rule is not the equivalence closure of "declared in one block": a block whose deallocators are
+    known in two different groups joins the first and *moves* the other deallocator there — the allocator that was declared together
+    with it stays behind (`a2` / `d2` of one block no longer match) -/
+theorem groups_not_closure_counterexample :
+    let bs : List Block := [⟨false, ["a1"], [["d1"]]⟩, ⟨false, ["a2"], [["d2"]]⟩, ⟨false, ["a3"], [["d1"], ["d2"]]⟩]
+    allocGroup (load empty bs) "a2" = some 4 ∧ deallocGroup (load empty bs) "d2" = some 2 ∧
+    allocGroup (load empty bs) "a3" = some 2 ∧ allocGroup (load empty bs) "a1" = some 2 := by
+  decide
+
+end Cppcheck.LibGroups
